@@ -180,7 +180,243 @@ def run(ctx, rep):
     rep.extra['writer_sequences'] = sum(len(v) for v in wg.values())
     rep.extra['reader_sequences'] = sum(len(v) for v in rg.values())
     rep.extra['member_pairs'] = npairs
+    run_closure_rule(P, rep)
 
 
 # written member -> restored member, when the two sides legitimately use different names
 ALIASES = set()
+
+
+# ---------------------------------------------------------------------------------------------------------------
+# R-C10-4: run-length closure.  A value the writer emits once per run must be constant over the run, i.e. the
+# loop that extends the run has to compare it between the first element and each further element.
+
+SPUT = {'sputc', 'sputb32', 'sputb64', 'sputbs', 'swrite', 'sputble32'}
+
+
+def run_closure_rule(P, rep, rid='R-C10-4'):
+    f = P.fn('state_write_thread')
+    rep.rule(rid, 'run-length closure in the writer: every value (or tag choice) emitted once per run derives from the first element only through getters that the run-extension loop compares between the first and each further element', 3)
+
+    def alloca_of(o):
+        i = f.inst_of(o)
+        return i if i is not None and i.op == 'alloca' else None
+
+    def stores_to(al, blocks):
+        return [u for u in f.users.get(al.id, ()) if u.op == 'store' and u.block in blocks and f.strip(u.ops[1]) == ['i', al.id]]
+
+    n = 0
+    for h, body in sorted(f.loops.items()):
+        st = [i for i in f.all_insts() if i.block in body and i.op == 'store']
+        calls = [i for i in f.all_insts() if i.block in body and i.op == 'call' and i.callee and not i.callee.startswith('llvm.')]
+        tg = {f.expr(s.ops[1]) for s in st}
+        if len(tg) != 1 or any(c.callee in SPUT for c in calls) or not calls:
+            continue
+        end_al = alloca_of(st[0].ops[1])
+        if end_al is None:
+            continue
+        inc = f.inst_of(st[0].ops[0])
+        if not (inc is not None and inc.op == 'add' and f.const_of(inc.ops[1]) == 1):
+            continue
+        # enclosing loop
+        outs = [hh for hh, bb in f.loops.items() if hh != h and body < bb]
+        if not outs:
+            continue
+        oh = min(outs, key=lambda hh: len(f.loops[hh]))
+        obody = f.loops[oh]
+        inner = set()
+        for hh, bb in f.loops.items():
+            if hh != oh and bb < obody:
+                inner |= bb
+        runlevel = obody - inner
+        # begin variable: `end = begin + 1` before the run loop
+        begin_al = None
+        for s in stores_to(end_al, runlevel):
+            v = f.inst_of(s.ops[0])
+            if v is not None and v.op == 'add' and f.const_of(v.ops[1]) == 1:
+                l = f.inst_of(v.ops[0])
+                if l is not None and l.op == 'load':
+                    begin_al = alloca_of(l.ops[0])
+        if begin_al is None or begin_al.id == end_al.id:
+            continue
+        n += 1
+
+        def sig(o, depth=0):
+            """canonical form with begin/end both written IDX and single-assignment locals expanded"""
+            o = f.strip(o)
+            if depth > 12:
+                return '?'
+            if o[0] != 'i':
+                return f.expr(o)
+            i = f.insts[o[1]]
+            if i.op == 'load':
+                al = alloca_of(i.ops[0])
+                if al is not None:
+                    if al.id in (begin_al.id, end_al.id):
+                        return 'IDX'
+                    ss = stores_to(al, runlevel)
+                    if len(ss) == 1:
+                        return sig(ss[0].ops[0], depth + 1)
+                return f.expr(o)
+            if i.op == 'call' and i.callee:
+                return '%s(%s)' % (i.callee, ','.join(sig(a, depth + 1) for a in i.ops[:i.nargs if i.nargs is not None else len(i.ops)]))
+            if i.op in ('add', 'sub', 'and', 'or', 'xor', 'mul', 'icmp', 'select', 'getelementptr', 'phi'):
+                return '%s(%s)' % (i.op, ','.join(sig(a, depth + 1) for a in i.ops))
+            return f.expr(o)
+
+        def slice_calls(o, seen, blocks_for_stores):
+            """calls in the backward slice of operand o (through locals assigned at run level)"""
+            o = f.strip(o)
+            res = []
+            if o[0] != 'i' or o[1] in seen:
+                return res
+            seen.add(o[1])
+            i = f.insts[o[1]]
+            if i.op == 'load':
+                al = alloca_of(i.ops[0])
+                if al is not None and al.id not in (begin_al.id, end_al.id):
+                    for s in stores_to(al, blocks_for_stores):
+                        res += slice_calls(s.ops[0], seen, blocks_for_stores)
+                elif al is None:
+                    res += slice_calls(i.ops[0], seen, blocks_for_stores)
+                return res
+            if i.op == 'call':
+                res.append(i)
+            for a in i.ops:
+                res += slice_calls(a, seen, blocks_for_stores)
+            return res
+
+        def depends_on(c, al):
+            seen = set()
+            def go(o):
+                o = f.strip(o)
+                if o[0] != 'i' or o[1] in seen:
+                    return False
+                seen.add(o[1])
+                i = f.insts[o[1]]
+                if i.op == 'load':
+                    a2 = alloca_of(i.ops[0])
+                    if a2 is not None:
+                        if a2.id == al.id:
+                            return True
+                        if a2.id in (begin_al.id, end_al.id):
+                            return False
+                        return any(go(s.ops[0]) for s in stores_to(a2, runlevel))
+                    return go(i.ops[0])
+                return any(go(a) for a in i.ops)
+            return any(go(a) for a in c.ops)
+
+        # K: canonical forms of the values compared (eq/ne) between the first element and element `end` on every
+        # iteration of the run loop, the unequal outcome leaving the loop
+        latch = st[0].block
+        def strip_offset(o):
+            """v + (end - begin)  ->  v"""
+            i = f.inst_of(o)
+            if i is not None and i.op == 'add':
+                j = f.inst_of(i.ops[1])
+                if j is not None and j.op == 'sub' and sig(j.ops[0]) == 'IDX' and sig(j.ops[1]) == 'IDX':
+                    return i.ops[0]
+            return o
+        def uses_var(o, al, seen=None):
+            seen = set() if seen is None else seen
+            o = f.strip(o)
+            if o[0] != 'i' or o[1] in seen:
+                return False
+            seen.add(o[1])
+            i = f.insts[o[1]]
+            if i.op == 'load':
+                a2 = alloca_of(i.ops[0])
+                if a2 is not None:
+                    if a2.id == al.id:
+                        return True
+                    if a2.id in (begin_al.id, end_al.id):
+                        return False
+                    return any(uses_var(s_.ops[0], al, seen) for s_ in stores_to(a2, runlevel))
+                return uses_var(i.ops[0], al, seen)
+            return any(uses_var(a_, al, seen) for a_ in i.ops)
+        K = set()
+        for ic in f.all_insts():
+            if ic.block not in body or ic.op != 'icmp' or ic.pred not in ('eq', 'ne'):
+                continue
+            x, y = strip_offset(ic.ops[0]), strip_offset(ic.ops[1])
+            if sig(x) != sig(y) or 'IDX' not in sig(x):
+                continue
+            if not ((uses_var(x, begin_al) and uses_var(y, end_al)) or (uses_var(y, begin_al) and uses_var(x, end_al))):
+                continue
+            # evaluated on every iteration, and the unequal outcome leaves the loop
+            leaves = False
+            # follow the boolean through negations: (value id, "true means equal")
+            work = [(ic.id, ic.pred == 'eq')]
+            seen_v = set()
+            while work:
+                vid, true_is_eq = work.pop()
+                if vid in seen_v:
+                    continue
+                seen_v.add(vid)
+                vblock = f.insts[vid].block
+                for u in f.users.get(vid, ()):
+                    if u.op == 'xor' and f.const_of(u.ops[1]) in (1, -1):
+                        work.append((u.id, not true_is_eq))
+                    elif u.op in ('zext', 'sext', 'trunc', 'freeze'):
+                        work.append((u.id, true_is_eq))
+                    elif u.op == 'icmp' and f.const_of(u.ops[1]) == 0 and u.pred in ('ne', 'eq'):
+                        work.append((u.id, true_is_eq if u.pred == 'ne' else not true_is_eq))
+                    elif u.op == 'br' and len(u.ops) == 3 and f.bdominates(vblock, latch):
+                        uneq = u.ops[1][1] if true_is_eq else u.ops[2][1]
+                        leaves = leaves or uneq not in body
+                    elif u.op == 'phi' and f.bdominates(u.block, latch) and true_is_eq:
+                        # short-circuit `a && x == y`: the other incoming values are the constant false
+                        others = [o_ for o_ in u.ops if f.strip(o_) != ['i', vid]]
+                        if all(f.const_of(o_) == 0 for o_ in others):
+                            for u2 in f.users.get(u.id, ()):
+                                if u2.op == 'br' and len(u2.ops) == 3 and u2.ops[1][1] not in body and u2.ops[2][1] in body:
+                                    leaves = True
+            if leaves:
+                K.add(sig(x))
+        # emission check
+        viol = []
+
+        def visit(o, passed, seen, why):
+            o = f.strip(o)
+            if o[0] != 'i' or (o[1], passed) in seen:
+                return
+            seen.add((o[1], passed))
+            i = f.insts[o[1]]
+            if sig(o) in K:
+                return
+            if i.op == 'call':
+                for a in i.ops:
+                    visit(a, i, seen, why)
+                return
+            if i.op == 'load':
+                al = alloca_of(i.ops[0])
+                if al is not None:
+                    if al.id == begin_al.id:
+                        if passed is not None:
+                            viol.append('%s depends on %s of the first element, which the run-extension loop does not compare' % (why, f.expr(['i', passed.id])))
+                        return
+                    if al.id == end_al.id:
+                        return
+                    for s in stores_to(al, runlevel):
+                        visit(s.ops[0], passed, seen, why)
+                    return
+                visit(i.ops[0], passed, seen, why)
+                return
+            for a in i.ops:
+                visit(a, passed, seen, why)
+
+        nem = 0
+        for b in sorted(runlevel):
+            for i in f.blocks[b]:
+                if i.op == 'call' and i.callee in SPUT:
+                    nem += 1
+                    for a in i.ops[:i.nargs if i.nargs is not None else len(i.ops)]:
+                        visit(a, None, set(), '%s(%s) at line %s' % (i.callee, f.expr(a), i.line))
+            t = f.term(b)
+            if t.op in ('br', 'switch') and len(t.ops) >= 1 and (t.op == 'switch' or len(t.ops) == 3) and b != oh:
+                visit(t.ops[0], None, set(), 'the choice made at line %s (%s)' % (t.line, f.expr(t.ops[0])))
+        keys = sorted(K)
+        rep.check(not viol and bool(K) and nem >= 1, rid, 'run loop at line %s (index %s..%s)' % (f.blocks[h][0].line, begin_al.var, end_al.var), f.blocks[h][0].loc(),
+                  'compared keys: %s; %d run-level emissions' % (keys, nem) if not viol else viol[0], function='state_write_thread', construct='run closure %s' % '/'.join(keys or ['?']))
+    if n < 3:
+        raise AnalysisBroken('state_write_thread: expected three run-length loops, recognised %d' % n)
